@@ -110,6 +110,21 @@ func checkSpec(ctx *Ctx, id string) {
 			tpls := append(append([]string{}, sh.Pre...), sh.Post...)
 			bigs := []string{"4294967295", "4294967296", "4294967297", r.Pick([]string{"2147483648", "9223372036854775807", "18446744073709551616", "202310051230"})}
 			var fam []string
+			// the usual "absent" sentinels (MaxInt64, MaxInt32) in every numbered marker slot, alone
+			// and behind another marker, next to the same text without that marker: always kept
+			for _, tpl := range tpls {
+				if !strings.Contains(tpl, "%k") && !strings.Contains(tpl, "%K") {
+					continue
+				}
+				for _, k := range []string{"9223372036854775807", "2147483647"} {
+					m := strings.ReplaceAll(strings.ReplaceAll(tpl, "%k", k), "%K", k)
+					extra = append([]string{base + m, base}, extra...)
+					if len(tpls) > 1 {
+						first := strings.ReplaceAll(strings.ReplaceAll(tpls[r.Intn(len(tpls))], "%k", "1"), "%K", "1")
+						extra = append([]string{base + first + m, base + first}, extra...)
+					}
+				}
+			}
 			for _, tpl := range tpls {
 				if !strings.Contains(tpl, "%k") && !strings.Contains(tpl, "%K") {
 					continue
@@ -196,7 +211,9 @@ func checkSpec(ctx *Ctx, id string) {
 			if len(fam) > 0 {
 				fam = append(fam, tokenPrefixes(fam[len(fam)-1])...)
 			}
+			fam = append(fam, overflowSums(base, ".")...)
 			b2 := base + ".0"
+			fam = append(fam, joinerSwaps(r, b2+"-a.b", sample)...)
 			fam = append(fam, punctuationPairs(r, b2, sample)...)
 			fam = append(fam, punctuationPairs(r, b2+r.Pick([]string{"a", "rc", "b"}), sample)...)
 			extra = append(fam, extra...)
